@@ -200,6 +200,15 @@ fn run_case(seed: u64, lean: &mut Lean, hist: &mut BTreeMap<String, u64>, sample
                 }
             }
             4 | 5 if !stale.is_empty() && r.chance(1, 3) => {
+                // direct writes through the handle of a deleted keyspace are refused (each kind of insert / remove)
+                {
+                    let (h, id) = r.pick(&stale).clone();
+                    let k = gen_key(&mut r);
+                    let res = [("insert", h.insert(k.clone(), "stale").is_err()), ("remove", h.remove(k.clone()).is_err()), ("remove_weak", h.remove_weak(k.clone()).is_err())];
+                    for (what, refused) in res { if !refused { fail!("impl-vs-oracle", "{what}({}) through the handle of the deleted keyspace with id {id} was accepted", hex(&k)); } }
+                    trace.push(format!("writes through a stale handle (id {id}) refused"));
+                    *hist.entry("writes-through-stale-handle".into()).or_insert(0) += 1;
+                }
                 // deleting again through a handle of an already deleted keyspace changes nothing,
                 // in particular not a keyspace created later under the same name (finding F23, fixed)
                 let (h, id) = r.pick(&stale).clone();
